@@ -637,6 +637,37 @@ def c13_corpus(seed, tier, cases):
         add("tt backwards by ~2^32 x%d (%s)" % (back, mode), tt_script(rng, 40 + back, back=back, backmode=mode))
     for pauses in (3, 4, 12):
         add("tt forward pauses >= 2^31 x%d" % pauses, tt_script(rng, 50 + pauses, pauses=pauses))
+    # every probe lasts about 2^32 ns (or runs backwards by a multiple of 100): the 32-bit truncated delta, not the
+    # full difference, is what "multiple of 100" and "zero delta" are about
+    for name, f in (("2^32+100m", lambda i: (1 << 32) + 100 * (3 + i % 9)), ("2^32+100m+4", lambda i: (1 << 32) + 100 * (3 + i % 9) + 4),
+                    ("2^33+100m+7", lambda i: (1 << 33) + 100 * (2 + i % 7) + 7), ("2^32+k", lambda i: (1 << 32) + 37 + (i * i) % 89)):
+        t = rng.getrandbits(40) + (1 << 20)
+        rd = [t]
+        for j in range(1, 401):
+            time = (t + 977) & M64
+            time2 = (time + f(j)) & M64
+            rd += [time, (time + 1) & M64, (time + 2) & M64, time2]
+            t = time2
+        add("tt long probes " + name, rd)
+    for nback, step in ((1, 100), (3, 100), (3, 116), (3, 216), (2, 300)):
+        # 270 forward multiples of 100 and `nback` backward steps (within the 3 that are tolerated)
+        t = rng.getrandbits(40) + (1 << 20)
+        rd = [t]
+        for j in range(1, 401):
+            i = j - 101
+            if i < 0:
+                d = 1000 + 37 * j
+            elif i < 270 - (nback if step % 100 == 0 else 0):
+                d = 100 * (2 + i % 11)
+            elif i < 270 - (nback if step % 100 == 0 else 0) + nback:
+                d = -step
+            else:
+                d = 100 * (2 + i % 11) + 1 + i % 50
+            time = (t + 5000) & M64
+            time2 = (time + d) & M64
+            rd += [time, (time + 1) & M64, (time + 2) & M64, time2]
+            t = max(time, time2)
+        add("tt 270 multiples of 100 and %d steps back by %d" % (nback, step), rd)
     # seeded random timers
     for i in range(6 if tier == "quick" else 500):
         style = rng.choice(["jit", "coarse", "const", "lin", "wild"])
@@ -804,6 +835,15 @@ def c08_corpus(seed, tier, adversarial):
                 ops.append({"op": nat, "g": 1, "n": 2})
                 sid += 1
         S.case("%s from_rng with almost-zero blocks" % kind, ops)
+        # long runs of all-zero blocks: a redraw / remap must not give up after some number of them
+        ops, sid = [], 1
+        for z in ((8, 64, 70) if tier == "quick" else (8, 63, 64, 65, 70, 128, 300, 1000)):
+            for fallible in (False, True):
+                ops.append({"op": "src", "s": sid, "bytes": src_bytes(rng, kind, z, z + 3), "fallible": fallible})
+                ops.append({"op": "try_from_rng" if fallible else "from_rng", "g": 1, "kind": kind, "s": sid})
+                ops.append({"op": nat, "g": 1, "n": 3})
+                sid += 1
+        S.case("%s from_rng after many zero blocks" % kind, ops)
     return S
 
 
@@ -924,6 +964,10 @@ def c10_corpus(seed, tier, node_paths_by_kind):
             ops += [{"op": "clone", "g": 1, "to": 2}, {"op": "eq", "a": 1, "b": 2}]
             ops += lockstep(suffix_ops(kind, rng, bb[kind]), [1, 2])
             ops += [{"op": "eq", "a": 1, "b": 2}]
+            # Clone::clone_from onto a generator that is in the middle of another block (and, for Isaac64Rng, owes a half)
+            ops += [{"op": "from_seed", "g": 7, "kind": kind, "seed": [rng.getrandbits(8) for _ in range(32)]}, opj(("next_u32", 0), 7, n=3),
+                    {"op": "clone_from", "g": 7, "from": 1}, {"op": "eq", "a": 1, "b": 7}]
+            ops += lockstep([("next_u32", 0), ("next_u64", 0), ("fill_bytes", 9), ("next_u32", 0)], [1, 7])
             if kind == "Hc128Rng":
                 # same seed, another read position of the same block / same position, another seed
                 ops += [{"op": "from_seed", "g": 3, "kind": kind, "seed": sd}, {"op": "from_seed", "g": 4, "kind": kind, "seed": sd}]
@@ -944,6 +988,10 @@ def c10_corpus(seed, tier, node_paths_by_kind):
             ops += [{"op": "clone", "g": 1, "to": 2}, {"op": "eq", "a": 1, "b": 2}]
             ops += lockstep(suffix_ops(kind, rng, None), [1, 2])
             ops += [{"op": "eq", "a": 1, "b": 2}]
+            # Clone::clone_from onto a generator with another history
+            ops += [{"op": "from_seed", "g": 7, "kind": kind, "seed": [rng.getrandbits(8) | 1 for _ in range(SEEDLEN[kind])]}, opj(("next_u32", 0), 7),
+                    {"op": "clone_from", "g": 7, "from": 1}, {"op": "eq", "a": 1, "b": 7}]
+            ops += lockstep([("next_u32", 0), ("next_u64", 0), ("fill_bytes", 9)], [1, 7])
             # one step apart; one seed bit apart (highest bit of the last word)
             sd2 = list(sd)
             sd2[-1] ^= 0x80
@@ -1086,15 +1134,29 @@ def c19_corpus(seed, tier, scheds):
     pairs = [(k, k) for k in kinds] + [(kinds[i], kinds[(i + 7) % len(kinds)]) for i in range(len(kinds))]
     n = 60 if tier == "quick" else 4000
     pick = rng.sample(scheds, min(n, len(scheds)))
+    # one extra family: two instances of ONE kind built by DIFFERENT constructors from arguments that coincide as
+    # bytes (from_seed(x as little-endian bytes, zero padded) next to seed_from_u64(x)), in both orders
+    related = [(k, x, order) for k in ALL_SEEDABLE for x in (0, 1, rng.getrandbits(64)) for order in (0, 1)]
+    if tier == "quick":
+        related = [r for r in related if r[1] == 0 or r[0] in ("IsaacRng", "Isaac64Rng", "Hc128Rng", "XorShiftRng")]
+    pick = pick + rng.sample(scheds, min(len(related), len(scheds)))
     for ci, sc in enumerate(pick):
         k1, k2 = pairs[ci % len(pairs)]
+        rel = related[ci - n] if ci >= n and ci - n < len(related) else None
+        if rel:
+            k1 = k2 = rel[0]
         kind = {1: k1, 2: k2}
-        same_seed = (k1 == k2 and ci % 2 == 0)
+        same_seed = (k1 == k2 and ci % 2 == 0) and not rel
         seeds = {}
         for g in (1, 2):
             if kind[g] != "JitterRng":
                 mode = rng.choice(["rand", "rand", "zero", "u64zero"])
                 seeds[g] = (mode, [rng.getrandbits(8) for _ in range(SEEDLEN[kind[g]])])
+        if rel:
+            xb = list(rel[1].to_bytes(8, "little"))
+            sd = (xb + [0] * SEEDLEN[k1])[:SEEDLEN[k1]]
+            a, b = ("rand", sd), ("u64", rel[1])
+            seeds[1], seeds[2] = (a, b) if rel[2] == 0 else (b, a)
         if same_seed and k1 != "JitterRng":
             seeds[2] = seeds[1]
         # choose the output op of every step of every instance up front
@@ -1113,6 +1175,8 @@ def c19_corpus(seed, tier, scheds):
                     o = [{"op": "from_seed", "g": inst, "kind": kind[g], "seed": [0] * SEEDLEN[kind[g]]}]
                 elif mode == "u64zero":
                     o = [{"op": "seed_from_u64", "g": inst, "kind": kind[g], "x": u64(0)}]
+                elif mode == "u64":
+                    o = [{"op": "seed_from_u64", "g": inst, "kind": kind[g], "x": u64(sd)}]
                 else:
                     o = [{"op": "from_seed", "g": inst, "kind": kind[g], "seed": sd}]
             if th is not None:
